@@ -238,21 +238,85 @@ def _slices(ctx):
         if tuple(to_rat(x).fmt() for x in gs) != wshape:
             bad.append((axis, direction, "shape", tuple(to_rat(x).fmt() for x in gs), wshape))
     ctx.ob("R3.4", f"{PML}:interface-tables", not bad, "interface_slice and interface_slice_tuple both select the slab cell adjacent to the interior (min side: last cell, max side: first cell, full transverse extent), interface_grid_shape is the slab shape with extent one along the layer's axis (6 layers)", bad[:2], "adjacent cell")
-    # declared recorder shapes
-    import ast
+    _declared_shapes(ctx)
 
+
+def _declared_shapes(ctx):
+    """What _init_arrays declares to the recorder, read off by interpreting the function up to that statement on a
+    scene with three absorbing layers: one entry per key collect_boundary_interfaces produces, with its shape."""
+    import ast
+    import math
+
+    from ..absint import StopAfter
+    from ..harness import mk_material
+    from ..scene import SP, Scene
+    from ..values import Unknown
+
+    ix = ctx.index
     fi = ix.function("fdtdx.fdtd.initialization._init_arrays")
     ctx.unit(fi.where())
-    src = fi.node
-    keys, shapes_ok = set(), False
-    for node in ast.walk(src):
-        if isinstance(node, ast.For) and isinstance(node.iter, ast.Attribute) and node.iter.attr == "pml_objects":
-            body = ast.unparse(node)
-            shapes_ok = "interface_grid_shape()" in body and "(3, *cur_shape)" in body.replace("extended_shape = ", "")
-            for st in ast.walk(node):
-                if isinstance(st, ast.Subscript) and isinstance(st.value, ast.Name) and st.value.id == "input_shape_dtypes" and isinstance(st.slice, ast.JoinedStr):
-                    keys.add(ast.unparse(st.slice))
-    ctx.ob("R3.4", "_init_arrays:recorder-declaration", keys == {"f'{boundary.name}_E'", "f'{boundary.name}_H'"} and shapes_ok, "the recorder is initialised with one entry '<layer>_E' and one '<layer>_H' per absorbing layer, of shape (3, *interface_grid_shape()) — the keys and shapes collect_boundary_interfaces produces", sorted(keys), ["<name>_E", "<name>_H"])
+    stop = None
+    for st in fi.node.body:
+        if isinstance(st, ast.If) and "recorder" in ast.unparse(st.test):
+            stop = st
+    if stop is None:
+        raise AnalysisError("_init_arrays no longer has a top-level statement that initialises the recorder")
+    it = ctx.fresh_interp()
+    sc = Scene(ix, it)
+    V = ix.cls("fdtdx.objects.static_material.static.SimulationVolume")
+    one = (1, 0, 0, 0, 1, 0, 0, 0, 1)
+    zero = (0,) * 9
+    mat = mk_material(it, permittivity=one, permeability=one, electric_conductivity=zero, magnetic_conductivity=zero)
+    vol = Obj(V, dict(name="vol", placement_order=-1000, material=mat, _grid_slice_tuple=((0, Rat.atom("Nx")), (0, Rat.atom("Ny")), (0, Rat.atom("Nz"))), grid_shape=(Rat.atom("Nx"), Rat.atom("Ny"), Rat.atom("Nz"))), "vol")
+    pmls = _pmls(ctx, [(0, "-"), (1, "+"), (2, "-")])
+    for p_ in pmls:
+        p_.attrs["grid_shape"] = tuple(hi - lo for lo, hi in p_.attrs["_grid_slice_tuple"])
+    OC = ix.cls("fdtdx.fdtd.container.ObjectContainer")
+    oc = Obj(OC, {"object_list": [vol] + pmls, "volume_idx": 0}, "objects")
+    declared = {}
+
+    def init_state(it_, a, k):
+        declared.update({kk: (tuple(v.attrs["shape"]), v.attrs["dtype"]) for kk, v in k["input_shape_dtypes"].items()})
+        declared["__max_time_steps__"] = k.get("max_time_steps")
+        return (recorder, Obj(None, {}, "recording_state"))
+
+    recorder = Obj(None, {"init_state": Builtin("init_state", init_state)}, "recorder")
+    GC = ix.cls("fdtdx.config.GradientConfig")
+    gc = Obj(GC, dict(method="reversible", recorder=recorder, num_checkpoints=None, num_checkpoints_reversible=0), "gradient_config")
+
+    def csm(it_, a, k):
+        shape = k.get("shape", a[0] if a else None)
+        lead = tuple(int(x) for x in shape[:-3])
+        return NdArr(lead, [k.get("value", 0)] * math.prod(lead), SP)
+
+    def sps(it_, a, k):
+        arr, idx, val = a[0], a[1], a[2]
+        return it_.call(it_.getattr(it_.getitem(it_.getattr(arr, "at"), idx), "set"), [val], {})
+
+    stub_repo_calls(it, {"create_named_sharded_matrix": csm, "sharding_preserving_set": sps, "_warn_if_simulation_volume_too_large": lambda it_, a, k: None})
+    it.ext_overrides["jax.ShapeDtypeStruct"] = lambda it_, a, k: Obj(None, dict(shape=k.get("shape", a[0] if a else ()), dtype=k.get("dtype", a[1] if len(a) > 1 else None)), "sds")
+    it.ext_overrides["np.zeros"] = lambda it_, a, k: Rat.const(0)
+    cfg = sc.config(resolve_grid=Builtin("resolve_grid", lambda it_, a, k: Obj(None, {"shape": a[0]}, "grid")), use_complex_fields=None, dtype="real_dtype", backend="cpu", courant_number=Rat.atom("courant"), gradient_config=gc, time_steps_total=integer_atom("T"))
+    it.stop_after.add(id(stop))
+    try:
+        it.call(it.closure_of(fi), [oc, cfg], {})
+        raise AnalysisError("_init_arrays returned before the recorder was initialised")
+    except StopAfter:
+        pass
+    except Raised as r:
+        raise AnalysisError(f"_init_arrays raises on the scene: {r}")
+    want = {}
+    for p_ in pmls:
+        shape = tuple(1 if a == p_.attrs["axis"] else (hi - lo) for a, (lo, hi) in enumerate(p_.attrs["_grid_slice_tuple"]))
+        for F in "EH":
+            want[f"{p_.attrs['name']}_{F}"] = (3,) + shape
+    got = {k: v[0] for k, v in declared.items() if k != "__max_time_steps__"}
+    same_keys = set(got) == set(want)
+    same_shapes = same_keys and all(len(got[k]) == 4 and all(to_rat(x).equals(to_rat(y)) for x, y in zip(got[k], want[k])) for k in want)
+    dtypes = {v[1] for k, v in declared.items() if k != "__max_time_steps__"}
+    tmax = declared.get("__max_time_steps__")
+    ok_t = tmax is not None and to_rat(tmax).equals(integer_atom("T"))
+    ctx.ob("R3.4", "_init_arrays:recorder-declaration", same_keys and same_shapes and dtypes == {"real_dtype"} and ok_t, "the recorder is initialised for time_steps_total steps with one entry '<layer>_E' and one '<layer>_H' per absorbing layer, of the field dtype and of shape (3, slab shape with extent one along the layer's axis) — the keys and shapes collect_boundary_interfaces produces", {k: tuple(to_rat(x).fmt() for x in v) for k, v in got.items()}, {k: tuple(to_rat(x).fmt() for x in v) for k, v in want.items()})
 
 
 def _step_order(ctx):
